@@ -434,6 +434,10 @@ MUTANTS = [
      "    info = DefaultTransitionInfo(error_code, acceptance_prob, do_accept)\n", "    info = DefaultTransitionInfo(error_code, acceptance_prob, acceptance_prob > 0)\n"),
     ("C05-nan-guard-checks-only-proposal", "liesel/goose/mh.py",
      "        jnp.isnan(log_acc_prob),\n", "        jnp.isnan(proposed_log_prob),\n"),
+]
+
+# Semantics-preserving changes: the property still holds, so the check must NOT raise an alarm.
+CONTROLS = [
     ("C05-uniform-from-other-half-open-interval", "liesel/goose/mh.py",
      "    do_accept = jax.random.uniform(prng_key) < acceptance_prob\n", "    do_accept = (1.0 - jax.random.uniform(prng_key)) <= acceptance_prob\n"),
 ]
